@@ -21,7 +21,8 @@ func init() {
 			"R4 MetavarMatcher and MetavarReplacer use the same key conversion metavarKey(<receiver>.Name) and the same value type; R5 in compileMeta the table entry is written only for names that are not \"_\" and not already declared; " +
 			"R6 no leakage between attempts: the traversal callback writes no captured variable except the match list, the data it starts every attempt from is the outer, never-reassigned value, and package data never writes into an existing Data node (persistent structure). " +
 			"NOT decided: that structural comparison by the captured matcher equals 'syntactically identical' (that is C01's rule set applied to the captured matcher, built by the same compiler); user-visible behaviour for all fillers. R7 the compiler that builds the captured matcher is not reconfigured, and the matcher compiler's ignore set (C01-R6) holds, so 'identical' ignores nothing but comments, Ident.Obj and position values." +
-			" R9 the name lists the failure memo consults are never overwritten (compilers are created per change; no field slice is truncated to length zero for re-use).",
+			" R9 the name lists the failure memo consults are never overwritten (compilers are created per change; no field slice is truncated to length zero for re-use)." +
+			" R9 also: a compiler list handed out in pieces is never sorted, reversed or written by index. R10 a nil candidate (absent optional identifier) is neither captured nor compared (decided under the hypothesis IsNil && Kind == Ptr).",
 		Trusted:     commonTrusted,
 		Assumptions: commonAssumptions,
 	})
